@@ -124,6 +124,20 @@ CLAIMED["C15"] = dict(
           "argv/env/cwd hand-over and the evaluator-side gate/argument evaluation (Runtime::eval_process_command_call*) are outside the claim."),
 )
 
+CLAIMED["C02"] = dict(
+    text=("Bounded model checking of the reclamation points at unit-contract level, for every string VALUE and ALIASING a caller can hand them "
+          "(provenance classes x 2 symbolic bytes), with the location of the result pinned: ArenaCow::promote keeps the bytes, never leaves data "
+          "on the frame and copies pool-slot aliases; overwrite_slot stores the assigned value even when it aliases the slot's own storage "
+          "(`x get x`); detach_return_value makes what a return statement hands out independent of pool slots and frame temporaries; "
+          "relocate_return_value keeps a returned string intact across the frame reset and the caller's next frame and pool allocations. "
+          "NOT the whole-program differential the property states (that needs the evaluator): the contracts of the places where memory is given back."),
+    ref="DESIGN.md A.1 / 3 (C02)",
+    note=("Trusted: Kani/CBMC/SAT; strings of 2 symbolic bytes; pools laid over small non-split byte buffers (two slots in each of the two smallest "
+          "classes, other classes exhausted), PoolSet::contains replaced by its two-class straight-line equivalent (contains itself is C12); arena "
+          "models of 128..960 bytes; arrays, host handles, loop-iteration resets and expression-level interleavings (`x add f()` where f reassigns x) "
+          "are outside the claim; composition of the contracts over whole programs is argued."),
+)
+
 NOT_APPLICABLE = {
     "C01": "tree-walk evaluator (Runtime::eval_expr/exec_stmt) cannot be symbolically executed by Kani/CBMC within this machine's memory (7 probe variants, DESIGN.md 4); every clause of the property is evaluator behaviour",
     "C03": "differential between two evaluator runs fed by the whole analysis pipeline on symbolic programs; neither half can be encoded (DESIGN.md 4)",
@@ -133,10 +147,7 @@ NOT_APPLICABLE = {
     "C14": "process-level observation (stdout/exit status) of a binary and sequences of whole-program runs through clap, file I/O and the evaluator; the encodable ingredient (scratch arena flip/flop and re-initialisation) is decided under C11",
 }
 
-PENDING = {"C02": ("the reclamation points (overwrite_slot, relocate_return_value, pop_scope followed by a pool allocation) ran out of memory "
-                   "in all three pool models tried: releasing and re-taking a slot makes the recycled slot address symbolic; only "
-                   "ArenaCow::promote fits, and a claim on that sliver would not be the property (DESIGN.md A.1); the whole-program "
-                   "differential needs the evaluator, which cannot be encoded (DESIGN.md 4)")}
+PENDING = {}
 
 
 def build():
